@@ -10,18 +10,26 @@ Local Open Scope Z_scope.
 Definition blocked_pc (p : pc) : Prop :=
   (exists c l, p = PWaitSlept c l) \/ (exists l k, p = PLockSlept l k).
 
-Record RS (s : state) : Prop := mkRS {
+Record RSo (s : state) (o : option tid) : Prop := mkRS {
   rs_cv : forall t c, In t (wqs s (WCv c)) -> exists l, tpc (th s t) = PWaitSlept c l;
   rs_mx : forall t l, In t (wqs s (WMx l)) -> exists k, tpc (th s t) = PLockSlept l k;
   rs_sl : forall t, st (th s t) = SLEEPING -> wk (th s t) = WNone;
-  rs_err : forall t, err (th s t) = -1 ->
+  rs_err : forall t, Some t <> o -> err (th s t) = -1 ->
              (exists c l n, tpc (th s t) = PWaitSlept c l /\ wk (th s t) = WNotified n) \/
              (exists l k, tpc (th s t) = PLockSlept l k /\ wk (th s t) = WHandoff);
-  rs_to : forall t c l, tpc (th s t) = PWaitSlept c l -> wk (th s t) = WTimeout -> ts (th s t) <= now s;
-  rs_e0 : forall t c l, tpc (th s t) = PWaitSlept c l -> err (th s t) = 0 ->
+  rs_to : forall t c l, Some t <> o -> tpc (th s t) = PWaitSlept c l -> wk (th s t) = WTimeout -> ts (th s t) <= now s;
+  rs_e0 : forall t c l, Some t <> o -> tpc (th s t) = PWaitSlept c l -> err (th s t) = 0 ->
              wk (th s t) = WNone \/ wk (th s t) = WTimeout;
   rs_now : now s <= MAX64
 }.
+Definition RS (s : state) : Prop := RSo s None.
+Lemma RS_weaken s o : RS s -> RSo s o.
+Proof.
+  intros R. constructor; try (apply R).
+  - intros t _. apply (rs_err s None R). discriminate.
+  - intros t c l _. apply (rs_to s None R). discriminate.
+  - intros t c l _. apply (rs_e0 s None R). discriminate.
+Qed.
 
 (* frame: control/ghost fields unchanged, threads only stop SLEEPING, queues only shrink, time only grows *)
 Definition rs_mono (s s' : state) : Prop :=
@@ -35,18 +43,18 @@ Proof.
   intros y. destruct (A1 y) as (a1 & a2 & a3 & a4 & a5), (B1 y) as (b1 & b2 & b3 & b4 & b5).
   repeat split; try congruence. auto.
 Qed.
-Lemma RS_frame s s' : rs_mono s s' -> RS s -> RS s'.
+Lemma RS_frame s s' o : rs_mono s s' -> RSo s o -> RSo s' o.
 Proof.
   intros (A1 & A2 & A3) R. constructor.
-  - intros t c H. apply A2 in H. destruct (A1 t) as (-> & _). now apply (rs_cv s R).
-  - intros t l H. apply A2 in H. destruct (A1 t) as (-> & _). now apply (rs_mx s R).
-  - intros t H. destruct (A1 t) as (_ & -> & _ & _ & E). apply (rs_sl s R). auto.
-  - intros t H. destruct (A1 t) as (-> & -> & E & _). rewrite E in H. now apply (rs_err s R).
-  - intros t c l H1 H2. destruct (A1 t) as (E1 & E2 & _ & E4 & _). rewrite E1 in H1. rewrite E2 in H2. rewrite E4.
-    rewrite A3. exact (rs_to s R _ _ _ H1 H2).
-  - intros t c l H1 H2. destruct (A1 t) as (E1 & E2 & E3 & _). rewrite E1 in H1. rewrite E3 in H2. rewrite E2.
-    eapply (rs_e0 s R); eauto.
-  - rewrite A3. apply (rs_now s R).
+  - intros t c H. apply A2 in H. destruct (A1 t) as (-> & _). now apply (rs_cv s o R).
+  - intros t l H. apply A2 in H. destruct (A1 t) as (-> & _). now apply (rs_mx s o R).
+  - intros t H. destruct (A1 t) as (_ & -> & _ & _ & E). apply (rs_sl s o R). auto.
+  - intros t Ho H. destruct (A1 t) as (-> & -> & E & _). rewrite E in H. now apply (rs_err s o R).
+  - intros t c l Ho H1 H2. destruct (A1 t) as (E1 & E2 & _ & E4 & _). rewrite E1 in H1. rewrite E2 in H2. rewrite E4.
+    rewrite A3. exact (rs_to s o R _ _ _ Ho H1 H2).
+  - intros t c l Ho H1 H2. destruct (A1 t) as (E1 & E2 & E3 & _). rewrite E1 in H1. rewrite E3 in H2. rewrite E2.
+    eapply (rs_e0 s o R); eauto.
+  - rewrite A3. apply (rs_now s o R).
 Qed.
 
 Definition rkeeps (f : thr -> thr) : Prop :=
@@ -62,10 +70,485 @@ Lemma rm_lown s f : rs_mono s (s_lown s f). Proof. split; [|split]; [|auto|refle
 Lemma rm_bad s : rs_mono s (s_bad s). Proof. split; [|split]; [|auto|reflexivity]. intros y. repeat split; auto. Qed.
 Lemma RS_tick s d : RS s -> RS (tick s d).
 Proof.
-  intros R. pose proof (rs_now s R) as Hn.
+  intros R. pose proof (rs_now s None R) as Hn.
   assert (Hm : now s <= now (tick s d) <= MAX64).
   { unfold tick. simpl. unfold sat_add. destruct (MAX64 <? now s + Z.max 0 d) eqn:E; [lia|]. apply Z.ltb_ge in E. lia. }
-  constructor; try (intros; first [eapply (rs_cv s R)|eapply (rs_mx s R)|eapply (rs_sl s R)|eapply (rs_err s R)|eapply (rs_e0 s R)]; eauto; fail).
-  - intros t c l H1 H2. pose proof (rs_to s R _ _ _ H1 H2). change (ts (th (tick s d) t)) with (ts (th s t)). lia.
+  constructor.
+  - apply (rs_cv s None R).
+  - apply (rs_mx s None R).
+  - apply (rs_sl s None R).
+  - apply (rs_err s None R).
+  - intros t c l Ho H1 H2. pose proof (rs_to s None R _ _ _ Ho H1 H2). change (ts (th (tick s d) t)) with (ts (th s t)). lia.
+  - apply (rs_e0 s None R).
   - lia.
+Qed.
+
+Lemma rm_set_held s t l b : rs_mono s (set_held s t l b).
+Proof. apply rm_updT. intros r. repeat split; auto. Qed.
+Lemma rm_set_running s v : rs_mono s (set_running s v).
+Proof.
+  unfold set_running. destruct (runq (vc s v)) as [|[t|] r]; try apply rm_refl. apply rm_updT.
+  intros r0. repeat split; auto. simpl. discriminate.
+Qed.
+Lemma rm_rotate s v : rs_mono s (rotate s v).
+Proof.
+  unfold rotate. destruct (runq (vc s v)) as [|e r]; [apply rm_refl|].
+  eapply rm_trans; [|apply rm_set_running]. eapply rm_trans; [|apply rm_updV].
+  destruct e; [apply rm_updT; intros x; repeat split; auto; simpl; discriminate|apply rm_refl].
+Qed.
+Lemma rm_eject v : forall l s cnt, rs_mono s (fst (eject s v l cnt)).
+Proof.
+  induction l as [|x r IH]; intros s cnt; simpl; [apply rm_refl|].
+  eapply rm_trans; [|apply IH].
+  eapply rm_trans; [apply rm_updT with (f := fun y => t_st y READY); intros y; repeat split; auto; simpl; discriminate|].
+  eapply rm_trans; [apply rm_updV|]. unfold rq_append. apply rm_updV.
+Qed.
+Lemma rm_dequeue s x ns : ns <> SLEEPING -> rs_mono s (dequeue s x ns).
+Proof.
+  intros Hns. split; [|split].
+  - intros y. destruct (Nat.eq_dec y x); subst.
+    + destruct (dequeue_x s x ns) as (A & _ & _ & B & C & _ & D & _ & _ & E & _). rewrite A, B, C, D, E.
+      repeat split; auto; intros; congruence.
+    + rewrite dequeue_th_other by auto. repeat split; auto.
+  - intros q y H. unfold dequeue in H. destruct (wqo (th s x)) as [w|]; simpl in H; auto.
+    unfold updq in H. destruct (wq_eqb_spec q w); subst; auto. apply in_remove in H. tauto.
+  - destruct (dequeue_misc s x ns) as (_ & H & _). exact H.
+Qed.
+Lemma rm_wake_by s va x : rs_mono s (wake_by s va x).
+Proof.
+  unfold wake_by. destruct (Nat.eqb _ va).
+  - unfold rq_append. eapply rm_trans; [|apply rm_updV]. eapply rm_trans; [|apply rm_updV]. apply rm_dequeue; discriminate.
+  - eapply rm_trans; [|apply rm_updV]. apply rm_dequeue; discriminate.
+Qed.
+Lemma rm_now_eq s x : now (s_lown s x) = now s. Proof. reflexivity. Qed.
+
+Ltac rm_peel :=
+  repeat match goal with
+  | |- rs_mono ?a ?a => apply rm_refl
+  | |- rs_mono _ (s_bad _) => eapply rm_trans; [|apply rm_bad]
+  | |- rs_mono _ (rotate _ _) => eapply rm_trans; [|apply rm_rotate]
+  | |- rs_mono _ (set_running _ _) => eapply rm_trans; [|apply rm_set_running]
+  | |- rs_mono _ (set_held _ _ _ _) => eapply rm_trans; [|apply rm_set_held]
+  | |- rs_mono _ (wake_by _ _ _) => eapply rm_trans; [|apply rm_wake_by]
+  | |- rs_mono _ (rq_append _ _ _) => eapply rm_trans; [|apply rm_updV]
+  | |- rs_mono _ (s_lown _ _) => eapply rm_trans; [|apply rm_lown]
+  | |- rs_mono _ (updV _ _ _) => eapply rm_trans; [|apply rm_updV]
+  end.
+
+(* ---- the stepping thread's own pc / err updates ---------------------------------------------- *)
+Lemma not_queued s t : WF s -> st (th s t) <> SLEEPING -> forall q, ~ In t (wqs s q).
+Proof. intros W H q Hi. apply (wf_wq s W) in Hi. tauto. Qed.
+
+Lemma RS_set_pc s t p : WF s -> RSo s (Some t) -> st (th s t) <> SLEEPING -> err (th s t) <> -1 ->
+  ~ blocked_pc p -> RS (set_pc s t p).
+Proof.
+  intros W R Hs He Hp. pose proof (not_queued s t W Hs) as Nq. unfold set_pc. constructor.
+  - intros y c H. rewrite wqs_updT in H. rewrite th_updT. destruct (Nat.eqb_spec y t); subst; [exfalso; eapply Nq; eauto|].
+    now apply (rs_cv s _ R).
+  - intros y l H. rewrite wqs_updT in H. rewrite th_updT. destruct (Nat.eqb_spec y t); subst; [exfalso; eapply Nq; eauto|].
+    now apply (rs_mx s _ R).
+  - intros y H. rewrite th_updT in *. destruct (Nat.eqb_spec y t); subst; simpl in *; [congruence|]. now apply (rs_sl s _ R).
+  - intros y _ H. rewrite th_updT in *. destruct (Nat.eqb_spec y t); subst; simpl in *; [congruence|].
+    apply (rs_err s _ R); auto. congruence.
+  - intros y c l _ H1 H2. rewrite th_updT in *. destruct (Nat.eqb_spec y t); subst; simpl in *.
+    + exfalso. apply Hp. left. eauto.
+    + apply (rs_to s _ R y c l); auto. congruence.
+  - intros y c l _ H1 H2. rewrite th_updT in *. destruct (Nat.eqb_spec y t); subst; simpl in *.
+    + exfalso. apply Hp. left. eauto.
+    + apply (rs_e0 s _ R y c l); auto. congruence.
+  - apply (rs_now s _ R).
+Qed.
+Lemma RS_finish s t a b : WF s -> RSo s (Some t) -> st (th s t) <> SLEEPING -> err (th s t) <> -1 ->
+  RS (finish_op s t a b).
+Proof.
+  intros W R Hs He.
+  assert (X : RS (set_pc s t PIdle)).
+  { apply RS_set_pc; auto. intros [(c & l & H)|(l & k & H)]; discriminate. }
+  eapply RS_frame; [|exact X]. split; [|split]; [|auto|reflexivity].
+  intros y. unfold finish_op, set_pc. rewrite !th_updT. destruct (Nat.eqb y t); simpl; repeat split; auto.
+Qed.
+
+(* err of the stepping thread is not -1 unless its pc is a blocked one *)
+Lemma err_of_running s t : RS s -> ~ blocked_pc (tpc (th s t)) -> err (th s t) <> -1.
+Proof.
+  intros R Hp He. destruct (rs_err s None R t) as [(c & l & n & H & _)|(l & k & H & _)]; auto; try discriminate;
+    apply Hp; [left|right]; eauto.
+Qed.
+
+Lemma RSo_take_err s t a b s1 : RS s -> take_err s t = (a, b, s1) ->
+  RSo s1 (Some t) /\ err (th s1 t) <> -1 /\ st (th s1 t) = st (th s t) /\ vc s1 = vc s /\ wqs s1 = wqs s.
+Proof.
+  intros R H. unfold take_err in H. destruct (Z.eqb_spec (err (th s t)) 0); inversion H; subst.
+  - split; [apply RS_weaken; auto|]. split; [lia|]. auto.
+  - split; [|split; [rewrite th_updT_same; simpl; lia|split; [rewrite th_updT_same; reflexivity|auto]]].
+    constructor.
+    + intros y c Hy. rewrite wqs_updT in Hy. rewrite th_updT. destruct (Nat.eqb_spec y t); subst; simpl; now apply (rs_cv s _ R).
+    + intros y l Hy. rewrite wqs_updT in Hy. rewrite th_updT. destruct (Nat.eqb_spec y t); subst; simpl; now apply (rs_mx s _ R).
+    + intros y Hy. rewrite th_updT in *. destruct (Nat.eqb_spec y t); subst; simpl in *; now apply (rs_sl s _ R).
+    + intros y Ho Hy. rewrite th_updT in *. destruct (Nat.eqb_spec y t); subst; [congruence|]. apply (rs_err s _ R); auto. discriminate.
+    + intros y c l Ho H1 H2. rewrite th_updT in *. destruct (Nat.eqb_spec y t); subst; [congruence|]. apply (rs_to s _ R y c l); auto. discriminate.
+    + intros y c l Ho H1 H2. rewrite th_updT in *. destruct (Nat.eqb_spec y t); subst; [congruence|]. apply (rs_e0 s _ R y c l); auto. discriminate.
+    + apply (rs_now s _ R).
+Qed.
+
+Lemma pu_facts s v t q e :
+  (forall y, y <> t -> tpc (th (prepare_usleep s v t q e) y) = tpc (th s y) /\ wk (th (prepare_usleep s v t q e) y) = wk (th s y) /\ err (th (prepare_usleep s v t q e) y) = err (th s y) /\
+                       ts (th (prepare_usleep s v t q e) y) = ts (th s y) /\ (st (th (prepare_usleep s v t q e) y) = SLEEPING -> st (th s y) = SLEEPING)) /\
+  (tpc (th (prepare_usleep s v t q e) t) = tpc (th s t) /\ err (th (prepare_usleep s v t q e) t) = err (th s t) /\ wk (th (prepare_usleep s v t q e) t) = WNone /\ ts (th (prepare_usleep s v t q e) t) = e) /\
+  (forall w y, In y (wqs (prepare_usleep s v t q e) w) -> In y (wqs s w) \/ (y = t /\ q = Some w)) /\ now (prepare_usleep s v t q e) = now s.
+Proof.
+  unfold prepare_usleep.
+  match goal with |- context [set_running ?S4 v] => destruct (rm_set_running S4 v) as (A1 & A2 & A3); set (X := S4) in * end.
+  assert (Hy : forall y, y <> t -> th X y = th s y).
+  { intros y Hy. subst X. rewrite th_updV. destruct q; simpl; unfold updf; apply Nat.eqb_neq in Hy; rewrite ?Hy; auto. }
+  assert (Ht : tpc (th X t) = tpc (th s t) /\ err (th X t) = err (th s t) /\ wk (th X t) = WNone /\ ts (th X t) = e).
+  { subst X. rewrite th_updV. destruct q; simpl; unfold updf; rewrite ?Nat.eqb_refl; simpl; auto. }
+  assert (Hq : forall w y, In y (wqs X w) -> In y (wqs s w) \/ (y = t /\ q = Some w)).
+  { intros w y H. subst X. rewrite wqs_updV in H. destruct q as [w0|]; simpl in H; auto.
+    unfold updq in H. destruct (wq_eqb_spec w w0); subst; auto. apply in_app_or in H. destruct H as [H|[H|[]]]; auto. }
+  split; [|split; [|split]].
+  - intros y Hn. destruct (A1 y) as (a & b & c & d & f). rewrite a, b, c, d, <- (Hy y Hn). repeat split; auto.
+  - destruct (A1 t) as (a & b & c & d & _). rewrite a, b, c, d. exact Ht.
+  - intros w y H. apply A2 in H. auto.
+  - rewrite A3. subst X. destruct q; reflexivity.
+Qed.
+
+Definition pc_fits (q : option wq) (p : pc) : Prop :=
+  match q with
+  | Some (WCv c) => exists l, p = PWaitSlept c l
+  | Some (WMx l) => exists k, p = PLockSlept l k
+  | None => ~ blocked_pc p
+  end.
+
+(* the current thread t goes to sleep (optionally on queue q) and its pc becomes p *)
+Lemma RS_sleep s v t q e p : WF s -> RSo s (Some t) -> st (th s t) <> SLEEPING -> err (th s t) <> -1 ->
+  pc_fits q p -> RS (set_pc (prepare_usleep s v t q e) t p).
+Proof.
+  intros W R Hs He Hp. pose proof (not_queued s t W Hs) as Nq.
+  destruct (pu_facts s v t q e) as (Fo & (Ft1 & Ft2 & Ft3 & Ft4) & Fq & Fn).
+  unfold set_pc. constructor.
+  - intros y c H. rewrite wqs_updT in H. rewrite th_updT. apply Fq in H. destruct H as [H|[-> Hq]].
+    + destruct (Nat.eqb_spec y t); subst; [exfalso; eapply Nq; eauto|]. destruct (Fo y n) as (-> & _). now apply (rs_cv s _ R).
+    + rewrite Nat.eqb_refl. simpl. subst q. simpl in Hp. exact Hp.
+  - intros y l H. rewrite wqs_updT in H. rewrite th_updT. apply Fq in H. destruct H as [H|[-> Hq]].
+    + destruct (Nat.eqb_spec y t); subst; [exfalso; eapply Nq; eauto|]. destruct (Fo y n) as (-> & _). now apply (rs_mx s _ R).
+    + rewrite Nat.eqb_refl. simpl. subst q. simpl in Hp. exact Hp.
+  - intros y H. rewrite th_updT in *. destruct (Nat.eqb_spec y t); subst; simpl in *; auto.
+    destruct (Fo y n) as (_ & -> & _ & _ & E). apply (rs_sl s _ R). auto.
+  - intros y _ H. rewrite th_updT in *. destruct (Nat.eqb_spec y t); subst; simpl in *; [congruence|].
+    destruct (Fo y n) as (-> & -> & E & _). rewrite E in H. apply (rs_err s _ R); auto. congruence.
+  - intros y c l _ H1 H2. rewrite th_updT in *. destruct (Nat.eqb_spec y t); subst; simpl in *; [congruence|].
+    destruct (Fo y n) as (E1 & E2 & _ & -> & _). rewrite E1 in H1. rewrite E2 in H2. rewrite Fn.
+    apply (rs_to s _ R y c l); auto. congruence.
+  - intros y c l _ H1 H2. rewrite th_updT in *. destruct (Nat.eqb_spec y t); subst; simpl in *; [left; auto|].
+    destruct (Fo y n) as (E1 & E2 & E3 & _). rewrite E1 in H1. rewrite E3 in H2. rewrite E2.
+    apply (rs_e0 s _ R y c l); auto. congruence.
+  - simpl. rewrite Fn. apply (rs_now s _ R).
+Qed.
+
+(* a SLEEPING thread x is woken with error number e and reason w *)
+Definition wake_ok (s : state) (x : tid) (e : Z) (w : wake) : Prop :=
+  (0 < e /\ w = WInterrupted) \/
+  (e = -1 /\ ((exists c n, In x (wqs s (WCv c)) /\ w = WNotified n) \/ (exists l, In x (wqs s (WMx l)) /\ w = WHandoff))).
+
+Lemma RSo_wake s o va x e w : WF s -> RSo s o -> st (th s x) = SLEEPING -> wake_ok s x e w ->
+  RSo (wake_by (updT s x (fun y => t_wk (t_err y e) w)) va x) o.
+Proof.
+  intros W R Hs Hok.
+  set (s1 := updT s x (fun y => t_wk (t_err y e) w)).
+  assert (W1 : WF s1) by (apply WF_updT; auto; apply keeps_wkerr).
+  destruct (rm_wake_by s1 va x) as (A1 & A2 & A3).
+  assert (Fy : forall y, y <> x -> tpc (th (wake_by s1 va x) y) = tpc (th s y) /\ wk (th (wake_by s1 va x) y) = wk (th s y) /\
+             err (th (wake_by s1 va x) y) = err (th s y) /\ ts (th (wake_by s1 va x) y) = ts (th s y) /\
+             (st (th (wake_by s1 va x) y) = SLEEPING -> st (th s y) = SLEEPING)).
+  { intros y Hy. destruct (A1 y) as (a & b & c & d & f). subst s1. rewrite th_updT_other in *; auto. }
+  assert (Fx : tpc (th (wake_by s1 va x) x) = tpc (th s x) /\ wk (th (wake_by s1 va x) x) = w /\ err (th (wake_by s1 va x) x) = e /\
+               st (th (wake_by s1 va x) x) <> SLEEPING).
+  { destruct (A1 x) as (a & b & c & _). subst s1. rewrite th_updT_same in *. simpl in *. repeat split; auto.
+    unfold wake_by. destruct (Nat.eqb _ va); proj.
+    - destruct (dequeue_x (updT s x (fun y => t_wk (t_err y e) w)) x READY) as (-> & _). discriminate.
+    - destruct (dequeue_x (updT s x (fun y => t_wk (t_err y e) w)) x STANDBY) as (-> & _). discriminate. }
+  destruct Fx as (Fx1 & Fx2 & Fx3 & Fx4).
+  assert (Fq : forall q y, In y (wqs (wake_by s1 va x) q) -> In y (wqs s q) /\ y <> x).
+  { intros q y H. apply wb_wqs in H; auto. }
+  constructor.
+  - intros y c H. apply Fq in H. destruct H as [H Hn]. destruct (Fy y Hn) as (-> & _). now apply (rs_cv s _ R).
+  - intros y l H. apply Fq in H. destruct H as [H Hn]. destruct (Fy y Hn) as (-> & _). now apply (rs_mx s _ R).
+  - intros y H. destruct (Nat.eq_dec y x) as [->|n]; [congruence|]. destruct (Fy y n) as (_ & -> & _ & _ & E). apply (rs_sl s _ R); auto.
+  - intros y Ho H. destruct (Nat.eq_dec y x) as [->|n].
+    + rewrite Fx1, Fx2. rewrite Fx3 in H. destruct Hok as [[He _]|[_ [(c & n & Hi & ->)|(l & Hi & ->)]]]; [lia| |].
+      * left. destruct (rs_cv s _ R _ _ Hi) as [l Hl]. eauto.
+      * right. destruct (rs_mx s _ R _ _ Hi) as [k Hk]. eauto.
+    + destruct (Fy y n) as (-> & -> & E & _). rewrite E in H. apply (rs_err s _ R); auto.
+  - intros y c l Ho H1 H2. destruct (Nat.eq_dec y x) as [->|n].
+    + rewrite Fx2 in H2. destruct Hok as [[_ ->]|[_ [(c0 & n & _ & ->)|(l0 & _ & ->)]]]; discriminate.
+    + destruct (Fy y n) as (E1 & E2 & _ & -> & _). rewrite E1 in H1. rewrite E2 in H2. rewrite A3.
+      apply (rs_to s _ R y c l); auto.
+  - intros y c l Ho H1 H2. destruct (Nat.eq_dec y x) as [->|n].
+    + rewrite Fx3 in H2. destruct Hok as [[He _]|[He _]]; lia.
+    + destruct (Fy y n) as (E1 & E2 & E3 & _). rewrite E1 in H1. rewrite E3 in H2. rewrite E2.
+      apply (rs_e0 s _ R y c l); auto.
+  - rewrite A3. apply (rs_now s _ R).
+Qed.
+
+Lemma cur_not_sleeping s v t r : WF s -> runq (vc s v) = Th t :: r -> st (th s t) <> SLEEPING.
+Proof. intros W E. apply (runq_state s t v W). rewrite E. now left. Qed.
+
+Lemma sh_st s t l b y : st (th (set_held s t l b) y) = st (th s y) /\ err (th (set_held s t l b) y) = err (th s y).
+Proof. unfold set_held. rewrite th_updT. destruct (Nat.eqb y t) eqn:E; auto. apply Nat.eqb_eq in E; subst; auto. Qed.
+
+Lemma RS_lock_done s t l k r en : WF s -> RSo s (Some t) -> st (th s t) <> SLEEPING -> err (th s t) <> -1 ->
+  RS (lock_done s t l k r en).
+Proof.
+  intros W R Hs He. unfold lock_done.
+  assert (X : forall a b, RS (finish_op (set_held s t l true) t a b)).
+  { intros a b. destruct (sh_st s t l true t) as [E1 E2]. apply RS_finish.
+    - now apply WF_set_held. - eapply RS_frame; [apply rm_set_held|exact R]. - congruence. - congruence. }
+  destruct k.
+  - destruct (r =? 0); auto. now apply RS_finish.
+  - destruct (r =? 0).
+    + destruct (translate ret en0). auto.
+    + apply RS_set_pc; auto. intros [(c0 & l0 & H)|(l0 & k0 & H)]; discriminate.
+Qed.
+
+Lemma RSo_mutex_unlock s o va l s' : WF s -> RSo s o -> mutex_unlock s va l = Some s' -> RSo s' o.
+Proof.
+  intros W R H. unfold mutex_unlock in H. destruct (wqs s (WMx l)) as [|h q] eqn:E.
+  - inversion H; subst. eapply RS_frame; [apply rm_lown|exact R].
+  - destruct (lk (th s h)); [discriminate|]. inversion H; subst. clear H.
+    assert (Hi : In h (wqs s (WMx l))) by (rewrite E; now left).
+    apply RSo_wake.
+    + now apply WF_lown.
+    + eapply RS_frame; [apply rm_lown|exact R].
+    + apply (wf_wq s W h (WMx l) Hi).
+    + right. split; auto. right. exists l. split; auto.
+Qed.
+Lemma RSo_do_unlock s o va l s' : WF s -> RSo s o -> do_unlock s va l = Some s' -> RSo s' o.
+Proof.
+  intros W R H. unfold do_unlock in H. destruct (lkd s l).
+  - eapply RSo_mutex_unlock; eauto.
+  - inversion H; subst. eapply RS_frame; [apply rm_lown|exact R].
+Qed.
+
+Lemma nb_retry l k : ~ blocked_pc (PRetry l k). Proof. intros [(c0 & l0 & H)|(l0 & k0 & H)]; discriminate. Qed.
+Ltac nb := let H := fresh in intros [(? & ? & H)|(? & ? & H)]; discriminate.
+
+Lemma RS_lock_try s v t r l k s' : WF s -> RSo s (Some t) -> runq (vc s v) = Th t :: r -> err (th s t) <> -1 ->
+  lock_try s v t l k = Some s' -> RS s'.
+Proof.
+  intros W R E He H. pose proof (cur_not_sleeping _ _ _ _ W E) as Hs. unfold lock_try in H. destruct (lown s l).
+  - destruct (lkd s l); [|discriminate]. destruct (lk (th s t)); [discriminate|]. inversion H; subst.
+    apply RS_sleep; auto. simpl. eauto.
+  - inversion H; subst. apply RS_lock_done; auto.
+    + now apply WF_lown.
+    + eapply RS_frame; [apply rm_lown|exact R].
+Qed.
+
+Lemma RS_yield s v t p : WF s -> RSo s (Some t) -> st (th s t) <> SLEEPING -> ~ blocked_pc p ->
+  RS (set_pc (rotate (updT s t (fun x => t_err x 0)) v) t p).
+Proof.
+  intros W R Hs Hp.
+  set (s1 := updT s t (fun x => t_err x 0)).
+  assert (R1 : RSo s1 (Some t)).
+  { constructor.
+    - intros y c Hy. subst s1. rewrite wqs_updT in Hy. rewrite th_updT. destruct (Nat.eqb_spec y t); subst; simpl; now apply (rs_cv s _ R).
+    - intros y l Hy. subst s1. rewrite wqs_updT in Hy. rewrite th_updT. destruct (Nat.eqb_spec y t); subst; simpl; now apply (rs_mx s _ R).
+    - intros y Hy. subst s1. rewrite th_updT in *. destruct (Nat.eqb_spec y t); subst; simpl in *; now apply (rs_sl s _ R).
+    - intros y Ho Hy. subst s1. rewrite th_updT in *. destruct (Nat.eqb_spec y t); subst; [congruence|]. apply (rs_err s _ R); auto.
+    - intros y c l Ho H1 H2. subst s1. rewrite th_updT in *. destruct (Nat.eqb_spec y t); subst; [congruence|]. apply (rs_to s _ R y c l); auto.
+    - intros y c l Ho H1 H2. subst s1. rewrite th_updT in *. destruct (Nat.eqb_spec y t); subst; [congruence|]. apply (rs_e0 s _ R y c l); auto.
+    - apply (rs_now s _ R). }
+  assert (W1 : WF s1) by (apply WF_updT; auto; apply keeps_err).
+  destruct (rm_rotate s1 v) as (A1 & _). destruct (A1 t) as (_ & _ & Ee & _ & Es).
+  apply RS_set_pc; auto.
+  - now apply WF_rotate.
+  - eapply RS_frame; [apply rm_rotate|exact R1].
+  - intros Hx. apply Es in Hx. subst s1. rewrite th_updT_same in Hx. simpl in Hx. auto.
+  - rewrite Ee. subst s1. rewrite th_updT_same. simpl. lia.
+Qed.
+
+Lemma RS_notify_read s t c all n : WF s -> RSo s (Some t) -> st (th s t) <> SLEEPING -> err (th s t) <> -1 ->
+  RS (notify_read s t c all n).
+Proof.
+  intros W R Hs He. unfold notify_read. destruct (wqs s (WCv c)); [destruct all; now apply RS_finish|].
+  apply RS_set_pc; auto. nb.
+Qed.
+
+Lemma rk_lk v : rkeeps (fun y => t_lk y v). Proof. intros r. repeat split; auto. Qed.
+
+Lemma RS_op_step s v t r o s' : WF s -> RS s -> runq (vc s v) = Th t :: r -> tpc (th s t) = PIdle ->
+  op_step s v t o = Some s' -> RS s'.
+Proof.
+  intros W R0 E P H. pose proof (RS_weaken s (Some t) R0) as R.
+  pose proof (cur_not_sleeping _ _ _ _ W E) as Hs.
+  assert (He : err (th s t) <> -1) by (apply err_of_running; auto; rewrite P; nb).
+  destruct o; simpl in H.
+  - destruct (_ && _ && _) eqn:C; inversion H; subst; [|now apply RS_finish].
+    apply andb_true_iff in C. destruct C as [C C2]. apply andb_true_iff in C. destruct C as [C _].
+    destruct (tstate_eqb_spec (st (th s k)) NEW); [|discriminate]. apply Nat.eqb_eq in C2.
+    assert (Hk : k <> t) by (intros ->; pose proof (runq_state s t v W) as X; rewrite E in X; destruct (X (or_introl eq_refl)) as (_ & _ & X3 & _); congruence).
+    apply RS_finish.
+    + now apply WF_create.
+    + eapply RS_frame; [|exact R]. eapply rm_trans; [|apply rm_updV]. apply rm_updT. intros r0. repeat split; auto. simpl. discriminate.
+    + proj. rewrite th_updT_other; auto.
+    + proj. rewrite th_updT_other; auto.
+  - inversion H; subst. apply RS_yield; auto. nb.
+  - destruct (_ || _).
+    + inversion H; subst. apply RS_yield; auto. nb.
+    + destruct (lk (th s t)); [discriminate|]. inversion H; subst. apply RS_sleep; auto. simpl. nb.
+  - destruct (alive s k && (0 <? e)).
+    + destruct (tstate_eqb (st (th s k)) SLEEPING); inversion H; subst; (apply RS_set_pc; auto; nb).
+    + inversion H; subst. now apply RS_finish.
+  - destruct (held (th s t) l); [inversion H; subst; now apply RS_finish|]. eapply RS_lock_try; eauto.
+  - destruct (held (th s t) l); [|inversion H; subst; now apply RS_finish].
+    destruct (do_unlock s v l) as [s1|] eqn:U; [|discriminate]. inversion H; subst.
+    pose proof (WF_do_unlock _ _ _ _ W U) as W1. pose proof (RSo_do_unlock _ _ _ _ _ W R U) as R1.
+    (* the unlocker itself is untouched by the hand-off (it is not SLEEPING) *)
+    assert (Ft : st (th s1 t) = st (th s t) /\ err (th s1 t) = err (th s t)).
+    { unfold do_unlock in U. destruct (lkd s l); [|inversion U; subst; auto].
+      unfold mutex_unlock in U. destruct (wqs s (WMx l)) as [|h q] eqn:Eq; [inversion U; subst; auto|].
+      destruct (lk (th s h)); [discriminate|]. inversion U; subst.
+      assert (h <> t).
+      { intros ->. apply Hs. apply (wf_wq s W t (WMx l)). rewrite Eq. now left. }
+      unfold wake_by. destruct (Nat.eqb _ v); proj; rewrite dequeue_th_other by auto; rewrite th_updT_other by auto; auto. }
+    destruct Ft as [F1 F2]. destruct (sh_st s1 t l false t) as [G1 G2].
+    apply RS_finish.
+    + now apply WF_set_held.
+    + eapply RS_frame; [apply rm_set_held|exact R1].
+    + congruence.
+    + congruence.
+  - destruct (held (th s t) l); [|inversion H; subst; now apply RS_finish].
+    destruct (lk (th s t)); [discriminate|]. inversion H; subst.
+    assert (X : RS (set_pc (prepare_usleep s v t (Some (WCv c)) (expiration_of s d)) t (PWaitSlept c l))).
+    { apply RS_sleep; auto. simpl. eauto. }
+    eapply RS_frame; [|exact X]. split; [|split]; [|auto|reflexivity]. intros y. repeat split; auto.
+  - inversion H; subst. now apply RS_notify_read.
+  - inversion H; subst. now apply RS_notify_read.
+  - inversion H; subst. now apply RS_finish.
+Qed.
+
+Lemma RS_frame_set_pc s S' t p : WF S' -> rs_mono s S' -> RSo s (Some t) -> st (th s t) <> SLEEPING ->
+  err (th s t) <> -1 -> ~ blocked_pc p -> RS (set_pc S' t p).
+Proof.
+  intros W M R Hs He Hp. destruct M as (A1 & A2 & A3). destruct (A1 t) as (_ & _ & Ee & _ & Es).
+  apply RS_set_pc; auto.
+  - eapply RS_frame; [|exact R]. split; [|split]; auto.
+  - congruence.
+Qed.
+Lemma RS_frame_finish s S' t a b : WF S' -> rs_mono s S' -> RSo s (Some t) -> st (th s t) <> SLEEPING ->
+  err (th s t) <> -1 -> RS (finish_op S' t a b).
+Proof.
+  intros W M R Hs He. destruct M as (A1 & A2 & A3). destruct (A1 t) as (_ & _ & Ee & _ & Es).
+  apply RS_finish; auto.
+  - eapply RS_frame; [|exact R]. split; [|split]; auto.
+  - congruence.
+Qed.
+
+Lemma RSo_set_err s o k e : RSo s o -> 0 < e -> RSo (updT s k (fun y => t_err y e)) o.
+Proof.
+  intros R He. constructor.
+  - intros y c Hy. rewrite wqs_updT in Hy. rewrite th_updT. destruct (Nat.eqb_spec y k); subst; simpl; now apply (rs_cv s _ R).
+  - intros y l Hy. rewrite wqs_updT in Hy. rewrite th_updT. destruct (Nat.eqb_spec y k); subst; simpl; now apply (rs_mx s _ R).
+  - intros y Hy. rewrite th_updT in *. destruct (Nat.eqb_spec y k); subst; simpl in *; now apply (rs_sl s _ R).
+  - intros y Ho Hy. rewrite th_updT in *. destruct (Nat.eqb_spec y k); subst; simpl in *; [lia|]. now apply (rs_err s _ R).
+  - intros y c l Ho H1 H2. rewrite th_updT in *. destruct (Nat.eqb_spec y k); subst; simpl in *; now apply (rs_to s _ R _ c l).
+  - intros y c l Ho H1 H2. rewrite th_updT in *. destruct (Nat.eqb_spec y k); subst; simpl in *; [lia|]. now apply (rs_e0 s _ R _ c l).
+  - apply (rs_now s _ R).
+Qed.
+
+Lemma RS_take_finish s t a b s1 x y : WF s -> RS s -> st (th s t) <> SLEEPING -> take_err s t = (a, b, s1) ->
+  RS (finish_op s1 t x y).
+Proof.
+  intros W R Hs T. destruct (RSo_take_err _ _ _ _ _ R T) as (R1 & He1 & Hs1 & _).
+  apply RS_finish; [eapply WF_take_err; eauto|exact R1|congruence|exact He1].
+Qed.
+Lemma RS_take_set_pc s t a b s1 p : WF s -> RS s -> st (th s t) <> SLEEPING -> take_err s t = (a, b, s1) ->
+  ~ blocked_pc p -> RS (set_pc s1 t p).
+Proof.
+  intros W R Hs T Hp. destruct (RSo_take_err _ _ _ _ _ R T) as (R1 & He1 & Hs1 & _).
+  apply RS_set_pc; [eapply WF_take_err; eauto|exact R1|congruence|exact He1|exact Hp].
+Qed.
+Lemma RS_take_sleep s v t a b s1 e p : WF s -> RS s -> st (th s t) <> SLEEPING -> take_err s t = (a, b, s1) ->
+  ~ blocked_pc p -> RS (set_pc (prepare_usleep s1 v t None e) t p).
+Proof.
+  intros W R Hs T Hp. destruct (RSo_take_err _ _ _ _ _ R T) as (R1 & He1 & Hs1 & _).
+  apply RS_sleep; [eapply WF_take_err; eauto|exact R1|congruence|exact He1|exact Hp].
+Qed.
+
+Lemma RS_thread_step s v t r s' : WF s -> NG s -> RS s -> runq (vc s v) = Th t :: r ->
+  thread_step s v t = Some s' -> RS s'.
+Proof.
+  intros W G R0 E H. pose proof (RS_weaken s (Some t) R0) as R.
+  pose proof (cur_not_sleeping _ _ _ _ W E) as Hs.
+  pose proof (WF_thread_step _ _ _ _ _ W E H) as W'.
+  unfold thread_step in H.
+  destruct (tpc (th s t)) eqn:P;
+    try (assert (He : err (th s t) <> -1) by (apply err_of_running; auto; rewrite P; nb)).
+  - destruct (prog (th s t)) as [|o os]; [|exact (RS_op_step _ _ _ _ _ _ W R0 E P H)].
+    destruct (lk (th s t)); [discriminate|]. destruct (Nat.ltb t (nvc s)); inversion H; subst.
+    + apply RS_sleep; auto. simpl. nb.
+    + eapply RS_frame; [|exact R0]. eapply rm_trans; [|apply rm_set_running].
+      eapply rm_trans; [apply rm_updV|]. apply rm_updT. intros r0. repeat split; auto. simpl. discriminate.
+  - destruct as_sleep; [destruct (err (th s t) =? 0)|]; inversion H; subst; now apply RS_finish.
+  - destruct (take_err s t) as [[a b] s1] eqn:T. inversion H; subst. exact (RS_take_finish _ _ _ _ _ _ _ W R0 Hs T).
+  - destruct (lk (th s t)); [discriminate|]. destruct (take_err s t) as [[a b] s1] eqn:T. inversion H; subst.
+    apply (RS_take_sleep _ _ _ _ _ _ _ _ W R0 Hs T). nb.
+  - destruct (take_err s t) as [[a b] s1] eqn:T. inversion H; subst. apply (RS_take_set_pc _ _ _ _ _ _ W R0 Hs T). nb.
+  - eapply RS_lock_try; eauto.
+  - destruct (take_err s t) as [[a b] s1] eqn:T.
+    destruct (RSo_take_err _ _ _ _ _ R0 T) as (R1 & He1 & Hs1 & _). pose proof (WF_take_err _ _ _ _ _ W T) as W1.
+    assert (Hs1' : st (th s1 t) <> SLEEPING) by congruence.
+    destruct ((a <? 0) && (b =? -1)).
+    + destruct (lown s1 l) as [o|]; [destruct (Nat.eqb o t)|]; inversion H; subst;
+        try (apply RS_lock_done; auto); try (apply RS_set_pc; auto; nb).
+    + destruct (translate a b). inversion H; subst. apply RS_lock_done; auto.
+  - destruct (sat_add (now s) 1000 <=? now s).
+    + inversion H; subst. apply RS_yield; auto. nb.
+    + destruct (lk (th s t)); [discriminate|]. inversion H; subst. apply RS_sleep; auto. simpl. nb.
+  - destruct (take_err s t) as [[a b] s1] eqn:T. inversion H; subst. apply (RS_take_set_pc _ _ _ _ _ _ W R0 Hs T). nb.
+  - inversion H; subst. now apply RS_notify_read.
+  - destruct (lk (th s x)); [discriminate|]. inversion H; subst.
+    eapply RS_frame_set_pc; eauto; [apply WF_updT; auto; apply keeps_lk|apply rm_updT, rk_lk|nb].
+  - destruct (wqs s (WCv c)) as [|h q]; [|destruct (Nat.eqb h x)]; inversion H; subst; (apply RS_set_pc; auto; nb).
+  - inversion H; subst.
+    eapply RS_frame_set_pc; eauto; [apply WF_updT; auto; apply keeps_lk|apply rm_updT, rk_lk|nb].
+  - (* PNfGo *)
+    destruct G as [GL GG].
+    assert (Hh : hd_error (wqs s (WCv c)) = Some x) by (eapply GG; eauto; discriminate).
+    assert (Hi : In x (wqs s (WCv c))) by (destruct (wqs s (WCv c)); inversion Hh; now left).
+    destruct (tstate_eqb_spec (st (th s x)) SLEEPING) as [Hx|Hx]; inversion H; subst.
+    + assert (Hn : x <> t) by congruence.
+      set (s2 := wake_by (updT s x (fun y => t_wk (t_err y (-1)) (WNotified t))) v x).
+      assert (R2 : RSo s2 (Some t)).
+      { apply RSo_wake; auto. right. split; auto. left. eauto. }
+      assert (W2 : WF s2) by (apply WF_wake_by; [apply WF_updT; auto; apply keeps_wkerr|rewrite th_updT_same; exact Hx]).
+      destruct (rm_wake_by (updT s x (fun y => t_wk (t_err y (-1)) (WNotified t))) v x) as (A1 & _).
+      destruct (A1 t) as (_ & _ & Ee & _ & Es). rewrite th_updT_other in Ee, Es by auto.
+      apply RS_set_pc; auto; [|fold s2; congruence|nb]. intros Hq. apply Es in Hq. auto.
+    + eapply RS_frame_set_pc; eauto; [|apply rm_bad|nb]. eapply WF_view; [|exact W]. repeat split; auto.
+  - destruct all; inversion H; subst.
+    + eapply RS_frame_set_pc; eauto; [apply WF_updT; auto; apply keeps_lk|apply rm_updT, rk_lk|nb].
+    + eapply RS_frame_finish; eauto; [apply WF_updT; auto; apply keeps_lk|apply rm_updT, rk_lk].
+  - destruct (lk (th s k)); [discriminate|]. inversion H; subst.
+    eapply RS_frame_set_pc; eauto; [apply WF_updT; auto; apply keeps_lk|apply rm_updT, rk_lk|nb].
+  - (* PInLocked *)
+    destruct (tstate_eqb_spec (st (th s k)) SLEEPING) as [Hx|Hx]; [destruct (Z.ltb_spec 0 e)|]; simpl in H; inversion H; subst;
+      try (apply RS_set_pc; auto; nb).
+    assert (Hn : k <> t) by congruence.
+    set (s2 := wake_by (updT s k (fun y => t_wk (t_err y e) WInterrupted)) v k).
+    assert (R2 : RSo s2 (Some t)) by (apply RSo_wake; auto; left; auto).
+    assert (W2 : WF s2) by (apply WF_wake_by; [apply WF_updT; auto; apply keeps_wkerr|rewrite th_updT_same; exact Hx]).
+    destruct (rm_wake_by (updT s k (fun y => t_wk (t_err y e) WInterrupted)) v k) as (A1 & _).
+    destruct (A1 t) as (_ & _ & Ee & _ & Es). rewrite th_updT_other in Ee, Es by auto.
+    apply RS_set_pc; auto; [|fold s2; congruence|nb]. intros Hq. apply Es in Hq. auto.
+  - destruct o; inversion H; subst.
+    + eapply RS_frame_set_pc; eauto; [apply WF_updT; auto; apply keeps_lk|apply rm_updT, rk_lk|nb].
+    + eapply RS_frame_finish; eauto; [apply WF_updT; auto; apply keeps_lk|apply rm_updT, rk_lk].
+  - destruct (tstate_eqb _ READY && (err (th s k) =? 0)); inversion H; subst; [apply RS_set_pc; auto; nb|now apply RS_finish].
+  - destruct (Z.ltb_spec 0 e); inversion H; subst; [|now apply RS_finish].
+    apply RS_finish.
+    + apply WF_updT; auto. apply keeps_err.
+    + now apply RSo_set_err.
+    + rewrite th_updT. destruct (Nat.eqb k t) eqn:Ek; simpl; auto. destruct (Nat.eqb t k); simpl; auto.
+    + rewrite th_updT. destruct (Nat.eqb t k); simpl; [lia|auto].
 Qed.
